@@ -38,7 +38,7 @@ func (rst *RstStream) Error() error {
 }
 
 func (rst *RstStream) Deserialize(fr *FrameHeader) error {
-	if len(fr.payload) < 4 {
+	if len(fr.payload) != 4 {
 		return ErrMissingBytes
 	}
 
